@@ -141,3 +141,31 @@ def coq_case(c, caps, reuse, strip, delays, w, lane, s0, s1, s2, extra, tcap, a_
 def cases_file(cases):
     body = ';\n '.join(cases)
     return HEADER + f'Definition results : list bool := [\n {body}].\nEval vm_compute in (failing results).\n'
+
+
+# ---- line-level semantics (Model/WaveOps.v wexec, Model/WaveAcc.v wacc) against the implementation's memory and abuf -----------
+LINE_HEADER = HEADER.replace('Model.WaveSimModel Model.Corr', 'Model.WaveSimModel Model.Corr Model.WaveOps Model.WaveAcc')
+LINE_CHECKS = ['line-level wacc = abuf of the implementation', 'line-level wacc = abuf of the flat-memory model (w_c_prop)',
+               'line-level wexec = every tracked region of the implementation\'s memory up to its terminator (c_reuse off)',
+               'regions_ok_b holds for the memory map (c_reuse off)',
+               'acc_once_b: an op whose output index is written again later carries a_loc = -1']
+
+
+def coq_line_case(c, caps, reuse, strip, delays, w, lane, s0, s1, s2, extra):
+    """wline_case: wexec / wacc started from the memory s_to_c (+ direct waveforms) produces, compared with what c_prop left."""
+    n = len(c.lines) + 3
+    capl = [caps] * n if isinstance(caps, int) else list(caps)
+    ops = np.asarray(w.ops)
+    actrl = cg.coq_list(ops[:, 6:9].tolist(), lambda r: f'({cg.coq_Z(r[0])}, {cg.coq_Z(r[1])}, {cg.coq_Z(r[2])})')
+    svals = cg.coq_list(range(len(s0)), lambda p: f'({b(s0[p, lane] != 0)}, {coq_time(tval(s1[p, lane]))}, {b(s2[p, lane] != 0)})')
+    ex = cg.coq_list([(p, wf) for (p, l), wf in sorted(extra.items()) if l == lane],
+                     lambda e: f'({e[0]}, {cg.coq_list(e[1], coq_time)})')
+    mem, ab, _ = lane_expected(w, lane)
+    return (f'wline_case {cg.coq_netlist(c)} {cg.coq_list(capl, cg.coq_N)} {b(reuse)} {b(strip)} '
+            f'{cg.coq_list(list(delays), coq_dtab)} {actrl} {max(w.abuf_len, 0)} {svals} {ex} '
+            f'{cg.coq_list(mem, coq_time)} {cg.coq_list(ab, cg.coq_Z)}')
+
+
+def line_cases_file(cases):
+    body = ';\n '.join(cases)
+    return LINE_HEADER + f'Definition results : list (list bool) := [\n {body}].\nEval vm_compute in (wline_failing results).\n'
